@@ -12,7 +12,7 @@ from . import configs, framework as fw, runner
 
 WORKER = str(Path(__file__).with_name('c08_worker.py'))
 UNKNOWN = 999          # content id of a result that matches no reference result
-CODES = {1: 'model', 2: 'restore', 3: 'refine', 4: 'stale', 9: 'harness'}
+CODES = {1: 'model', 2: 'restore', 3: 'refine', 4: 'stale', 5: 'rel', 9: 'harness'}
 STALE_KEY = 'stale-cache:path-keyed-hit-after-file-changed'
 
 BASE = [('Reservoir Model', '4'), ('Drawdown Parameter', '0.005'), ('Reservoir Depth', '3'), ('Gradient 1', '50'),
@@ -75,12 +75,44 @@ def combos(contents, base_ids):
     return out
 
 
-def gen_session(rnd, ok_ids, bad_ids, length, hashseeds, mixes=()):
-    """One random history.  Paths 0..np-1 are files of the session, higher ids are created by the library
-    (getdict, getmix)."""
-    ndirs, npaths = 3, rnd.randint(2, 4)
+# Relative request paths.  Path 100 is a name that ALSO exists in the source directory (file 90, never written by a
+# session), path 101 a name that does not; in session directory k they are the files 60+k and 70+k.
+REL = {100: 'Examples/salton_sea.txt', 101: 'c08_relative_input.txt'}
+SRC_FILE = 90
+NDIRS = 3
+HIP_TEXTS = ['Reservoir Temperature, 250.0\nRejection Temperature, 60.0\nReservoir Porosity, 10.0\nReservoir Area, 55.0\n'
+             'Reservoir Thickness, 0.25\nReservoir Life Cycle, 25\n',
+             'Reservoir Temperature, 200.0\nRejection Temperature, 50.0\nReservoir Area, 80.0\nReservoir Thickness, 0.3\n',
+             'Reservoir Temperature, 180.0\n',                       # everything else left to the defaults
+             'Reservoir Temperature, -5\nReservoir Area, 55.0\n']    # rejected
+
+
+def rel_target(d, p):
+    return (60 if p == 100 else 70) + d
+
+
+def resolve_table():
+    """[(dir code, path, file)]: what a relative path names in each directory (unlisted = the path itself)."""
+    t = [(['D', d], p, rel_target(d, p)) for d in range(NDIRS) for p in REL]
+    return t + [(['S'], 100, SRC_FILE)]
+
+
+def src_example_text():
+    return (fw.SRC / 'geophires_x' / REL[100]).read_text(encoding='UTF-8')
+
+
+def gen_session(rnd, ok_ids, bad_ids, length, hashseeds, mixes=(), src_content=None, hip_ids=()):
+    """One random history.  Paths 0..np-1 are files of the session, 60.. the targets of the relative names, higher
+    ids are created by the library (getdict, getmix).  [src_content]: content id of the source tree's own
+    Examples/salton_sea.txt (enables relative requests); [hip_ids]: HIP-RA input contents (enable HIP requests;
+    they are only ever requested through the HIP clients, GEOPHIRES contents only through GEOPHIRES)."""
+    ndirs, npaths = NDIRS, rnd.randint(2, 4)
     ops, nclients, nextp = [], 0, npaths
     written = {}
+    cwd0 = rnd.randrange(ndirs)
+    cwd = cwd0
+    is_hip = set(hip_ids)
+    geo = lambda: [q for q, c in written.items() if c not in is_hip]   # noqa: E731
 
     def newclient():
         nonlocal nclients
@@ -91,9 +123,31 @@ def gen_session(rnd, ok_ids, bad_ids, length, hashseeds, mixes=()):
     while len(ops) < length:
         x = rnd.random()
         content = rnd.choice(ok_ids) if rnd.random() < 0.75 or not bad_ids else rnd.choice(bad_ids)
-        if x < 0.42:
-            known = list(written) if written and rnd.random() < 0.9 else list(range(nextp))
-            ops.append(['get', rnd.randrange(nclients) if rnd.random() < 0.97 else nclients, rnd.choice(known)])
+        if x < 0.06 and src_content is not None:
+            # a RELATIVE request path: most of the time its file exists in the caller's directory
+            p = rnd.choice(list(REL))
+            t = rel_target(cwd, p)
+            if written.get(t) is None and rnd.random() < 0.8:
+                ops.append(['write', t, content])
+                written[t] = content
+            if written.get(t) not in is_hip:
+                ops.append(['get', rnd.randrange(nclients), p])
+        elif x < 0.14 and hip_ids:
+            k = rnd.choice([1, 1, 2])
+            holders = [q for q, c in written.items() if c in is_hip]
+            if not holders or rnd.random() < 0.4:
+                q = rnd.choice(list(range(npaths)) + [rel_target(cwd, 101)])
+                ops.append(['write', q, rnd.choice(list(hip_ids))])
+                written[q] = ops[-1][2]
+                holders = [q]
+            q = rnd.choice(holders) if rnd.random() < 0.9 else npaths + 40          # sometimes a missing file
+            if q == rel_target(cwd, 101) and rnd.random() < 0.7:
+                q = 101                                                               # ... by its relative name
+            ops.append(['hip', k, q])
+        elif x < 0.42:
+            known = geo() if geo() and rnd.random() < 0.9 else [q for q in range(nextp) if written.get(q) not in is_hip]
+            if known:
+                ops.append(['get', rnd.randrange(nclients) if rnd.random() < 0.97 else nclients, rnd.choice(known)])
         elif x < 0.64:
             p = rnd.randrange(npaths)
             ops.append(['write', p, content])
@@ -117,20 +171,25 @@ def gen_session(rnd, ok_ids, bad_ids, length, hashseeds, mixes=()):
             ops.append(['delete', p])
             written.pop(p, None)
         elif x < 0.85:
-            ops.append(['chdir', rnd.randrange(ndirs)])
+            cwd = rnd.randrange(ndirs)
+            ops.append(['chdir', cwd])
         elif x < 0.90:
             ops.append(['setargv', ['u%d' % rnd.randrange(9) for _ in range(rnd.randint(0, 4))]])
         elif x < 0.95:
             newclient()
         elif written:
-            ops.append(['cli', rnd.choice([q for q in written if q < npaths] or [0])])
-    return {'ndirs': ndirs, 'npaths': npaths, 'cwd': rnd.randrange(ndirs), 'argv': ['u0', 'u1'],
-            'hashseed': str(rnd.choice(hashseeds)), 'ops': ops}
+            ops.append(['cli', rnd.choice([q for q in geo() if q < npaths] or [npaths + 41])])
+    s = {'ndirs': ndirs, 'npaths': npaths, 'cwd': cwd0, 'argv': ['u0', 'u1'],
+         'hashseed': str(rnd.choice(hashseeds)), 'ops': ops, 'hip_contents': sorted(is_hip)}
+    if src_content is not None:
+        s['src_content'] = src_content
+    return s
 
 
-def reference_session(content_id):
-    return {'ndirs': 1, 'npaths': 1, 'cwd': 0, 'argv': ['u0'], 'hashseed': '0',
-            'ops': [['newclient', False], ['write', 0, content_id], ['get', 0, 0]]}
+def reference_session(prog, content_id):
+    """prog 'g': GEOPHIRES client; 1 / 2: HIP-RA-X / HIP-RA client."""
+    req = [['newclient', False], ['get', 0, 0]] if prog == 'g' else [['hip', prog, 0]]
+    return {'ndirs': 1, 'npaths': 1, 'cwd': 0, 'argv': ['u0'], 'hashseed': '0', 'ops': [['write', 0, content_id]] + req}
 
 
 def run_sessions(ctx, sessions, contents, tag):
@@ -143,6 +202,8 @@ def run_sessions(ctx, sessions, contents, tag):
                'argv': s['argv'], 'ops': s['ops'], 'tmp': str(base / 'tmp'), 'out': str(base / 'out.json')}
         # the same file NAME occurs in several directories: a cache keyed on less than the whole path collides
         job['paths'] = [str(Path(job['dirs'][p % s['ndirs']]) / f'in{p // s["ndirs"]}.txt') for p in range(s['npaths'])]
+        job['files'] = {rel_target(d, p): str(Path(job['dirs'][d]) / REL[p]) for d in range(s['ndirs']) for p in REL}
+        job['rel'] = REL
         base.mkdir(parents=True, exist_ok=True)
         groups.setdefault(s['hashseed'], []).append(job)
     chunks = []
@@ -173,20 +234,23 @@ def run_sessions(ctx, sessions, contents, tag):
 
 
 class References:
-    """Reference result of every content: one request in a fresh process (caching off, hash seed 0)."""
+    """Reference result of every (program, content): one request in a fresh process (caching off, hash seed 0)."""
 
     def __init__(self, ctx, contents):
         self.ctx, self.contents, self.ref = ctx, contents, {}
 
-    def ensure(self, ids):
-        todo = [c for c in sorted(set(ids)) if self.contents[c] not in self.ref]
-        if todo:
-            res = run_sessions(self.ctx, [reference_session(c) for c in todo], self.contents, f'ref{len(self.ref)}')
-            for c, r in zip(todo, res):
-                self.ref[self.contents[c]] = r['obs'][2]['out']
+    def ensure(self, ids, prog='g'):
+        self.ensure_pairs([(prog, c) for c in ids])
 
-    def of(self, c):
-        return self.ref[self.contents[c]]
+    def ensure_pairs(self, pairs):
+        todo = [(g, c) for g, c in sorted(set(pairs), key=str) if (g, self.contents[c]) not in self.ref]
+        if todo:
+            res = run_sessions(self.ctx, [reference_session(g, c) for g, c in todo], self.contents, f'ref{len(self.ref)}')
+            for (g, c), r in zip(todo, res):
+                self.ref[(g, self.contents[c])] = r['obs'][-1]['out']
+
+    def of(self, c, prog='g'):
+        return self.ref[(prog, self.contents[c])]
 
     def okc(self, ids):
         return [c for c in sorted(set(ids)) if self.of(c)[0] == 'ret']
@@ -210,19 +274,59 @@ def map_contents(ops, f):
 
 
 def contents_used(s):
-    return sorted({o[CONTENT_FIELD[o[0]]] for o in s['ops'] if o[0] in CONTENT_FIELD})
+    extra = {s['src_content']} if s.get('src_content') is not None else set()
+    return sorted({o[CONTENT_FIELD[o[0]]] for o in s['ops'] if o[0] in CONTENT_FIELD} | extra)
+
+
+def remap_session(s, f):
+    """Copy of the session with f applied to every content id (operations and session-level fields)."""
+    out = dict(s, ops=map_contents(s['ops'], f), hip_contents=sorted(f(c) for c in s.get('hip_contents', [])))
+    if s.get('src_content') is not None:
+        out['src_content'] = f(s['src_content'])
+    return out
+
+
+def hip_pairs(s):
+    """(program, content) pairs a HIP request of the session can run: the content of the file its path names for
+    the caller and for the program, at that point of the history."""
+    rt = {(tuple(d), p): f for d, p, f in resolve_table()}
+    files = {SRC_FILE: s['src_content']} if s.get('src_content') is not None else {}
+    cwd, pairs = ('D', s['cwd']), set()
+    for o in s['ops']:
+        if o[0] == 'write':
+            files[o[1]] = o[2]
+        elif o[0] == 'delete':
+            files.pop(o[1], None)
+        elif o[0] == 'chdir':
+            cwd = ('D', o[1])
+        elif o[0] == 'hip':
+            for d in (cwd, ('P', o[1])):
+                c = files.get(rt.get((d, o[2]), o[2]))
+                if c is not None:
+                    pairs.add((o[1], c))
+    return pairs
+
+
+def geo_contents(s):
+    """Contents that take part in GEOPHIRES requests (HIP-RA inputs only go to the HIP clients)."""
+    return [c for c in contents_used(s) if c not in set(s.get('hip_contents', []))]
+
+
+def ensure_refs(refs, s):
+    refs.ensure(geo_contents(s))
+    refs.ensure_pairs(hip_pairs(s))
 
 
 # ------------------------------------------------------------------------------------------------------------
 # Coq terms
 # ------------------------------------------------------------------------------------------------------------
 def q_dir(d):
-    return 'DSrc' if d[0] == 'S' else f'(DUser {int(d[1])})'
+    return {'S': 'DSrc', 'P': f'(DPkg {int(d[-1])})', 'D': f'(DUser {int(d[-1])})'}[d[0]]
 
 
 def q_arg(a):
     return {'E': lambda: 'AEmpty', 'I': lambda: f'(AIn {int(a[1])})', 'O': lambda: f'(AOut {int(a[1])}%Z)',
-            'U': lambda: f'(AUser {int(a[1])})'}[a[0]]()
+            'U': lambda: f'(AUser {int(a[1])})', 'H': lambda: 'AHipOut'}[a[0]]()
 
 
 def q_argv(av):
@@ -233,7 +337,11 @@ def q_tokens(toks):
     return '[' + '; '.join(f'(AUser {int(t[1:])})' for t in toks) + ']'
 
 
-def expand(session, result, digest2content, canon=lambda c: c):
+def hipres(k, c):
+    return 1000 + 10 * c + k
+
+
+def expand(session, result, digest2content, canon=lambda c: c, hip_digest=None):
     """-> (Coq ops, Coq observations, origin) with a getdict/getmix unfolded into Write + Get; origin[k] = index of
     the operation the k-th model step came from.  Contents with the same reference result are interchangeable:
     [canon] maps a content id to the representative of its class (the one [digest2content] names)."""
@@ -242,7 +350,9 @@ def expand(session, result, digest2content, canon=lambda c: c):
     for i, (op, b) in enumerate(zip(session['ops'], result['obs'])):
         kind = op[0]
         o = b['out']
-        if o[0] == 'ret':
+        if o[0] == 'ret' and kind == 'hip':
+            out = f'(Returned {(hip_digest or {}).get((op[1], o[1]), UNKNOWN)} false)'
+        elif o[0] == 'ret':
             out = f'(Returned {digest2content.get(o[1], UNKNOWN)} {"true" if o[2] else "false"})'
         else:
             out = {'raised': 'Raised', 'noclient': 'NoSuchClient', 'done': 'Done'}[o[0]]
@@ -256,19 +366,26 @@ def expand(session, result, digest2content, canon=lambda c: c):
                     'getmix': lambda: f'Get {op[1]} {op[2]}',
                     'write': lambda: f'Write {op[1]} {op[2]}', 'delete': lambda: f'Delete {op[1]}',
                     'chdir': lambda: f'Chdir (DUser {op[1]})', 'setargv': lambda: f'SetArgv {q_tokens(op[1])}',
-                    'cli': lambda: f'Cli {op[1]}'}[kind]())
+                    'cli': lambda: f'Cli {op[1]}', 'hip': lambda: f'HipGet {op[1]} {op[2]}'}[kind]())
         obs.append(f'mkObs {pre[0]} {pre[1]} {post[0]} {post[1]} {out}')
         origin.append(i)
     return ops, obs, origin
 
 
 def session_term(fn, fixed, session, result, refs):
-    ids = contents_used(session)
+    ids = geo_contents(session)
     d2c = refs.content_of_digest(ids)
-    canon = lambda c: d2c[refs.of(c)[1]] if refs.of(c)[0] == 'ret' else c   # noqa: E731
-    ops, obs, origin = expand(session, result, d2c, canon)
+    hipc = set(session.get('hip_contents', []))
+    canon = lambda c: c if c in hipc or refs.of(c)[0] != 'ret' else d2c[refs.of(c)[1]]   # noqa: E731
+    pairs = sorted(hip_pairs(session))
+    okh = [(k, c) for k, c in pairs if refs.of(c, k)[0] == 'ret']
+    hip_digest = {(k, refs.of(c, k)[1]): hipres(k, c) for k, c in reversed(okh)}
+    ops, obs, origin = expand(session, result, d2c, canon, hip_digest)
     okc = '[' + '; '.join(str(c) for c in sorted({canon(c) for c in refs.okc(ids)})) + ']'
-    return (f'{fn} {"true" if fixed else "false"} {okc} (DUser {session["cwd"]}) {q_tokens(session["argv"])}\n'
+    rt = '[' + '; '.join(f'({q_dir(d)}, {p}, {f})' for d, p, f in resolve_table()) + ']'
+    f0 = f'[({SRC_FILE}, Some {canon(session["src_content"])})]' if session.get('src_content') is not None else '[]'
+    cfg = f'(mkCfg {okc} [{"; ".join(f"({k}, {c})" for k, c in okh)}] {rt} {f0})'
+    return (f'{fn} {"true" if fixed else "false"} {cfg} (DUser {session["cwd"]}) {q_tokens(session["argv"])}\n'
             f'  [{"; ".join(ops)}]\n  [{"; ".join(obs)}]'), origin
 
 
@@ -302,11 +419,12 @@ def impure_steps(session, result, refs):
     """Steps whose fresh (non-hit) result is the reference result of its content as parsed by the client but whose
     report text or JSON output differs from the reference: numerically different run of the same input."""
     bad = []
-    by_digest = {refs.of(c)[1]: refs.of(c) for c in contents_used(session) if refs.of(c)[0] == 'ret'}
-    for i, b in enumerate(result['obs']):
+    by_digest = {refs.of(c)[1]: refs.of(c) for c in geo_contents(session) if refs.of(c)[0] == 'ret'}
+    hip = {(k, refs.of(c, k)[1]): refs.of(c, k) for k, c in hip_pairs(session) if refs.of(c, k)[0] == 'ret'}
+    for i, (op, b) in enumerate(zip(session['ops'], result['obs'])):
         o = b['out']
         if o[0] == 'ret' and not o[2]:
-            ref = by_digest.get(o[1])
+            ref = hip.get((op[1], o[1])) if op[0] == 'hip' else by_digest.get(o[1])
             if ref is None:
                 bad.append((i, 'result matches no reference result'))
             elif (o[3], o[4]) != (ref[3], ref[4]):
@@ -314,15 +432,22 @@ def impure_steps(session, result, refs):
     return bad
 
 
+REL_KEYS = {'client': 'relative-path:client:resolved-against-source-dir-not-callers-cwd',
+            'hip': 'relative-path:hip-client:resolved-against-program-dir-not-callers-cwd'}
+
+
 def violation_key(session, result, i, code):
     op, o = session['ops'][i], result['obs'][i]['out']
     what = {'ret': 'hit' if len(o) > 2 and o[2] else 'ok', 'raised': 'raised'}.get(o[0], o[0])
+    who = {'cli': 'cli', 'hip': 'hip'}.get(op[0], 'client')
     if code == 'stale':
         return STALE_KEY
+    if code == 'rel':
+        return REL_KEYS.get(who, f'relative-path:{who}')
     if code == 'restore':
-        return f'restore:{"cli" if op[0] == "cli" else "client"}:after-{what}'
+        return f'restore:{who}:after-{what}'
     if code == 'refine':
-        return f'refine:{"cli" if op[0] == "cli" else "client"}:{what}-not-run-of-current-content'
+        return f'refine:{who}:{what}-not-run-of-current-content'
     return f'{code}:{op[0]}:{what}'
 
 
@@ -330,7 +455,9 @@ def compact(session, contents):
     """Self-contained copy: only the contents it uses, renumbered."""
     used = contents_used(session)
     ren = {c: k for k, c in enumerate(used)}
-    return dict(session, ops=map_contents(session['ops'], ren.get), contents=[contents[c] for c in used])
+    keep = set(used)
+    out = remap_session(dict(session, hip_contents=[c for c in session.get('hip_contents', []) if c in keep]), ren.get)
+    return dict(out, contents=[contents[c] for c in used])
 
 
 def executable(ops, contents):
